@@ -17,6 +17,7 @@ HISTORY = {  # changes that an earlier version of the checks missed, and what wa
     "agent-C19": "missed at first by C19 (caught by C10): derived circuits were compiled before the load; the L event now compiles them lazily after load_state_dict",
     "revert-13-4866aad": "C02 missed it at first (C07 caught it): added complex-parameter pipelines with conjugation to C02",
     "agent-C03": "C02 missed it at first (C03 caught it): added mixed input kinds per variable to C02",
+    "agent6-C11": "missed at first: every categorical probability of the explored circuits was positive, so no placeholder at a marginalised position had likelihood zero; added probability tables with exact zeros, with every row of the domain used as placeholder",
     "agent5-C19": "missed at first by C19 and C10: no compiled circuit was ever put in evaluation mode; both checks now also run configurations in which every circuit (C19: the fresh instance) is in eval mode and evaluated once before the update / load",
     "agent4-C01": "C01 missed it at first (C14 caught it): all sum layers of a circuit shared one weight parameterisation; added 'alt' / 'alt2' (softmax(tensor) and plain tensors alternate between sibling sums)",
     "agent4-C12": "C12 and C01 missed it at first (C14 caught it): no explored structure had two mixing layers of the same shape side by side (one folded mixing-weight node); added QuadGraph(1,3,4) / PoonDomingos(1,3,3) with mixing weights to C12 (Z by brute force over 4096 / 512 assignments) and a 4-variable twin-mixture tree to C01",
